@@ -2,6 +2,7 @@ import Duckling.Model.Interp
 import Duckling.Lemmas.Assoc
 import Duckling.Lemmas.Seq
 import Duckling.Lemmas.RBasic
+import Duckling.Lemmas.Chain
 /-
   C05 — an IF/ELIF/ELSE chain runs exactly its first true branch.
 
@@ -19,6 +20,13 @@ import Duckling.Lemmas.RBasic
   * `C05_nested_starts_clean`           a body starts with no flag of its own: nested chains decide independently;
   * `C05_other_statements_keep_flag`    statements that are not IF/ELIF/ELSE leave the flag as they found it when they
                                          are simple commands (`runCompileLocal` never touches temp variables).
+  * `C05_chain`                         **a whole chain of any length** — `IF … / ELIF … / … / ELSE …` as `Stack.run` executes it (dispatch of
+                                         each arm to `If.run_compile`, the temp variable, the child stacks, the copy-back on exit) IS the chain run
+                                         with an explicit boolean "a branch of this chain has run" (`chainSpec`): an arm's condition is evaluated; its
+                                         body runs iff the boolean is clear (IF clears it) and the condition is true; running a body sets the boolean
+                                         for all later arms; a body that ends with a signal ends the block.  So exactly the first true branch runs.
+                                         The induction maintains `$IF_SUCCESS = that boolean` through every arm and every body (whatever it does);
+  * `C05_taken_arm_is_skipped`          read off `chainSpec`: once the boolean is set, an ELIF/ELSE arm never runs its body, whatever its condition.
   Together: in `IF c₀ … ELIF c₁ … ELIF cₙ … [ELSE …]` the body of the first true condition runs once, later arms are
   skipped (their conditions are still evaluated — an erroring one is a compile error, not a wrong body), and a new IF
   starts a new chain.
@@ -168,5 +176,29 @@ theorem C05_other_statements_keep_flag (ctx : Ctx) (c : ClsDesc) (name : Str) (l
   all_goals try simp only [R.bind_eq_ok, raise, reduceCtorEq, and_false, exists_false] at h
   all_goals try (cases h; rfl)
   all_goals try rfl
+
+/-- **a whole IF/ELIF/ELSE chain of any length is the chain with an explicit boolean** -/
+theorem C05_chain (child : Option ChildFn) (ctx : Ctx) (tail : List Node) (arms : List Arm) (hok : ∀ a ∈ arms, a.Ok)
+    (taken : Bool) (st : St) (out : List Str) (hflag : FlagIs arms st taken) :
+    runNodes child ctx (arms.flatMap armNodes ++ tail) st out =
+      chainSpec child ctx (fun st' out' => runNodes child ctx tail st' out') arms taken st out :=
+  runNodes_chain child ctx tail _ (fun _ _ => rfl) arms hok taken st out hflag
+
+/-- a chain that starts with IF needs no assumption on the flag it finds -/
+theorem C05_chain_from_if (child : Option ChildFn) (ctx : Ctx) (tail : List Node) (a : Arm) (arms : List Arm)
+    (hif : upper a.word = "IF".toList) (hok : ∀ b ∈ a :: arms, b.Ok) (taken : Bool) (st : St) (out : List Str) :
+    runNodes child ctx ((a :: arms).flatMap armNodes ++ tail) st out =
+      chainSpec child ctx (fun st' out' => runNodes child ctx tail st' out') (a :: arms) taken st out :=
+  C05_chain child ctx tail (a :: arms) hok taken st out (Or.inl hif)
+
+/-- once a branch has run, a later ELIF/ELSE arm only has its condition evaluated: its body never runs -/
+theorem C05_taken_arm_is_skipped (child : Option ChildFn) (ctx : Ctx) (k : St → List Str → Res) (a : Arm) (rest : List Arm)
+    (st : St) (out : List Str) (hnif : (upper a.word == "IF".toList) = false) (cond : Bool)
+    (hsyn1 : ((a.arg.map strip).isNone && upper a.word != "ELSE".toList) = false)
+    (hsyn2 : ((a.arg.map strip).isSome && upper a.word == "ELSE".toList) = false)
+    (hc : ifCond ctx ⟨a.l.num, none⟩ (upper a.word) (a.arg.map strip) (withFlag st) = .ok cond) :
+    chainSpec child ctx k (a :: rest) true st out = chainSpec child ctx k rest true (withFlag st) out := by
+  conv => lhs; unfold chainSpec
+  simp only [hsyn1, hsyn2, hc, hnif, Bool.false_eq_true, if_false, R.bind_ok, Bool.true_or, if_true]
 
 end Duckling.Props.C05
